@@ -104,6 +104,31 @@ Theorem C17_tc1d_value : forall H : list Z -> list Z -> list nat,
 Proof. exact tc1d_value. Qed.
 Print Assumptions C17_tc1d_value.
 
+(* "times the feature sampling rate": in C17_tc1d_value the rate is a free variable.  The statement's rate is the
+   feature's own: number of its samples / total duration [s] of ITS time support (pynapple's .rate), NOT that of
+   the feature restricted to ep; the harness oracle accepts this reading only (for the 1-d and the 2-d function). *)
+Definition feature_rate (ft : list Z) (fsup : iset) : Q :=
+  (inject_Z (Z.of_nat (length ft)) / Qmake (tot_length fsup) 1000000000)%Q.
+
+Theorem C17_tc1d_value_feature_rate : forall H : list Z -> list Z -> list nat,
+  (forall edges xs, H edges xs = hist edges xs) ->
+  forall fsup edges sp ft fv ep k, (k < nbins edges)%nat ->
+  let c := nth k (tc1d_count H edges sp ft fv ep) 0%nat in
+  let o := nth k (tc1d_occ H edges ft fv ep) 0%nat in
+  o <> 0%nat -> exists q, nth k (tc1d H (feature_rate ft fsup) edges sp ft fv ep) TInf = TVal q /\
+                 (q * inject_Z (Z.of_nat o) == inject_Z (Z.of_nat c) * feature_rate ft fsup)%Q.
+Proof. intros H HH fsup edges sp ft fv ep k Hk. exact (proj2 (tc1d_value H HH (feature_rate ft fsup) edges sp ft fv ep k Hk)). Qed.
+Print Assumptions C17_tc1d_value_feature_rate.
+
+(* the two readings differ as soon as ep cuts the feature: 11 samples on [0,10] s, ep = [0,5] s holds 6 of them:
+   11/10 Hz against 6/5 Hz (audit input: compute_1d gives 2/6 x 11/10, compute_2d 2/6 x 6/5 on the same data) *)
+Theorem C17_rate_readings_differ :
+  let ft := map (fun k => k * 1000000000) [0; 1; 2; 3; 4; 5; 6; 7; 8; 9; 10] in
+  let ep := [(0, 5000000000)] in let fsup := [(0, 10000000000)] in
+  feature_rate ft fsup == 11 # 10 /\ feature_rate (select 0 ft (restrict_idx ft ep)) ep == 6 # 5.
+Proof. vm_compute. split; reflexivity. Qed.
+Print Assumptions C17_rate_readings_differ.
+
 Theorem C17_tc1d_unvisited_has_no_spike : forall H : list Z -> list Z -> list nat,
   (forall edges xs, H edges xs = hist edges xs) ->
   forall edges sp ft fv ep k,
@@ -204,6 +229,21 @@ Proof.
 Qed.
 Print Assumptions C17_cont_last_edge_refuted.
 
+(* REFUTED reading "a visited bin that holds no signal sample has no mean, hence NaN": the model (as the code) returns
+   a VALUE for every visited bin, with n = 0 samples and sum 0 - the code writes 0.0 (tc[np.isnan(tc)] = 0.0), which
+   cannot be told from a genuine zero mean.  Feature 0,1,2 at 0,1,2 s, signal 5,7 at 0 and 2 s, 3 bins over [0,3]:
+   bin 1 is visited (occupancy 1), no signal sample is attributed to it.  Replayed on /repo: [5.0, 0.0, 7.0]. *)
+Theorem C17_cont_empty_visited_bin_refuted :
+  exists edges st sv ft fv ep k, increasing edges /\ (k < nbins edges)%nat /\
+    nth k (tc1d_occ hist edges ft fv ep) 0%nat = 1%nat /\
+    filter (fun r => in_hbin edges k (fst r)) (cont_rows st sv ft fv ep) = [] /\
+    nth k (cont_tc dig hist edges st sv ft fv ep) None = Some (0%nat, 0).
+Proof.
+  exists (lin_edges 0 3 3), [0; 2000], [5; 7], [0; 1000; 2000], (scale 3 [0; 1; 2]), [(0, 2000)], 1%nat.
+  split; [apply (lin_edges_spec 0 3 3); [reflexivity | apply Nat.lt_0_succ] | vm_compute; repeat split; auto with arith].
+Qed.
+Print Assumptions C17_cont_empty_visited_bin_refuted.
+
 (* ------------------------------------------------------------------------------------------------ *)
 (* 7. decoding (exp = E, positive)                                                                    *)
 Local Open Scope Q_scope.
@@ -258,6 +298,20 @@ Theorem C17_argmax_exp_cancels : forall E : Q -> Q, (forall x, 0 < E x) ->
   argmax (weights E b occ tc cnt) = argmax (wls occ tc cnt).
 Proof. exact argmax_exp_cancels. Qed.
 Print Assumptions C17_argmax_exp_cancels.
+
+(* "product of rate^count": unit j's rate goes with unit j's OWN count.  The model pairs column j of the tuning curve
+   with entry j of the count vector (C17_posterior_terms: combine (snd pr) cnt); which unit sits at position j on either
+   side (the keys) is not modelled.  The pairing is not immaterial: tuning-curve columns [unit 5; unit 3] = rows [10;1],
+   [1;10] (equal summed rates, so exp cancels), unit 5 fired 4 times and unit 3 never.  Paired by key the counts are [4;0]
+   and bin 0 wins; a group passed as dict is re-sorted by key (counts [0;4] for keys [3;5]) and, paired by POSITION with the
+   unsorted columns, bin 1 wins.  Replayed on /repo: decode_1d(tc[[5,3]], {5:a,3:b}, ...) decodes the wrong bin silently;
+   the harness pairs by key (input class keys=tc_permuted). *)
+Theorem C17_decode_pairing_by_position_refuted :
+  let tc := [[10; 1]; [1; 10]] in let occ := [1; 1] in let E := fun _ : Q => 1 in
+  argmax (posterior E (bin_size_s 1000000000) occ tc [4%nat; 0%nat]) = 0%nat /\
+  argmax (posterior E (bin_size_s 1000000000) occ tc [0%nat; 4%nat]) = 1%nat.
+Proof. vm_compute. split; reflexivity. Qed.
+Print Assumptions C17_decode_pairing_by_position_refuted.
 
 Local Open Scope Z_scope.
 (* time bins of decode = the grid of count(bin_size, ep) (C05), one count per unit *)
